@@ -20,7 +20,17 @@ def as_literal(p: Union[str, int, float, bool, None]) -> ast.Constant:
     Returns:
         ast.Constant: The ast constant node that represents the value.
     """
-    return ast.Constant(value=p, kind=None)
+    return ast.Constant(value=_as_exact_number(p), kind=None)
+
+
+def _as_exact_number(p: Any) -> Any:
+    """A number that is an instance of a subclass of `int`, `float` or `complex` (an `IntEnum`
+    member, a numpy scalar) is turned into the plain number: only that can be written as a
+    literal."""
+    for number_type in (int, float, complex):
+        if isinstance(p, number_type) and type(p) not in (bool, number_type):
+            return number_type(p)
+    return p
 
 
 def as_ast(p_var: Any) -> ast.expr:
@@ -350,7 +360,7 @@ class _rewrite_captured_vars(ast.NodeTransformer):
                     ns_node = copy.copy(node)
 
                 return _mark_ignore_name().visit(ns_node)
-            return ast.Constant(value=new_value)
+            return ast.Constant(value=_as_exact_number(new_value))
 
         # If we fail, then just move on.
         return node
